@@ -302,6 +302,7 @@ func Prelude() string {
 (declare-fun payload (Int) Int)
 (assert (forall ((t Int) (p Int)) (! (and (= (dyntype (box t p)) t) (= (payload (box t p)) p) (not (= (box t p) 0))) :pattern ((box t p)))))
 (assert (= (dyntype 0) 0))
+(assert (= (payload 0) 0))
 (declare-fun inj_Y (Bytes) Int)
 (declare-fun prj_Y (Int) Bytes)
 (assert (forall ((s Bytes)) (! (= (prj_Y (inj_Y s)) s) :pattern ((inj_Y s)))))
